@@ -20,25 +20,25 @@ TEXT = {
             "A7 (rustix passes arguments through); syscalls inside std/rustix internals are listed as unverified"),
     "C06": ("Contracts on ProcfsHandle / procfs resolver / fd utilities: every descriptor returned carries ghost is_procfs and mount-id-checked facts established by the verify_* functions, which are themselves extracted and proved.",
             "A5 (mount ids identify mounts); conditional on the kernel reporting mount ids"),
-    "C07": ("Contracts on the procfs resolvers: '..' gives EXDEV, absolute link bodies ELOOP, O_NOFOLLOW forced by open(), creation flags refused before any syscall, one followed component in open_follow.",
-            "live /proc equality of the two backends is not decided"),
+    "C07": ("Contracts on the procfs resolvers: '..' gives EXDEV, absolute link bodies ELOOP, O_NOFOLLOW forced by open(), creation flags refused before any syscall, one followed component in open_follow; on a static ghost tree the O_PATH procfs resolver is proved equal to a spec function of the kernel walk including the O_PATH/O_NOFOLLOW/O_DIRECTORY final-component table (U24).",
+            "live /proc equality of the two backends is not decided; U24 assumes no syscall faults (static_no_faults) and the flag sets ProcfsHandle uses"),
     "C08": ("Termination measure on the ProcfsHandle::open retry (at most one unmasked retry) proved by Verus (`decreases`).",
             "none beyond the prelude models"),
     "C09": ("Contracts on proc_subpath / reopen / open_follow: the path is thread-self/fd/<n> for every n >= 0, symlink handles give ELOOP, creation flags refused, O_NOFOLLOW stripped.",
             "A6 (magic-link reopen opens the same inode)"),
     "C10": ("Every syscall stub may fail with any errno at every call in every unit; expect/unwrap/unreachable!/assert! are panic-freedom obligations; loops carry measures; postconditions rule out Ok for work not done.",
             "functions not under contract; remove_all's scan loop and the error-id retry loop have no measure (stated)"),
-    "C11": ("Descriptor ownership is linear in the prelude (OwnedFd is not Clone, no forget); raw-fd escape hatches are enumerated by a scan and each is under contract (into_raw_fd only on Ok, borrow_raw only for non-negative fds).",
+    "C11": ("Descriptor ownership is linear in the prelude (OwnedFd is not Clone, no forget); raw-fd escape hatches are enumerated by a scan and each is under contract (into_raw_fd only on Ok, borrow_raw only for non-negative fds); the openat2 wrapper is proved a second time with an explicit ledger of raw descriptors (nothing the kernel returned is dropped unowned); a ghost close-on-exec fact is carried from the syscall stubs through resolvers, Root, Handle and procfs to every returned descriptor.",
             "descriptors opened inside std/rustix (Dir::read_from), FrozenFd; Rc::try_unwrap uniqueness is assumed"),
-    "C12": ("Contract proof of mkdir_all: mode validation before any syscall, '..' refused, each mkdirat on the lineage chain with the requested mode, only EEXIST tolerated, returned handle is the chain's end.",
+    "C12": ("Contract proof of mkdir_all: mode validation before any syscall, '..' refused, each mkdirat on the lineage chain with the requested mode, only EEXIST tolerated, returned handle is the chain's end; every lookup goes through the Root's configured resolver (rigid ghost constant, from the public wrapper down to the backend call).",
             "convergence of concurrent callers is not decided (mechanism only)"),
-    "C13": ("Contract proof of utils::remove_all/remove_inode and Root::remove_all: '.'/'..'/'/'-containing names refused before any mutation, recursion only through O_NOFOLLOW|O_DIRECTORY opens of readdir names, only ENOENT swallowed.",
+    "C13": ("Contract proof of utils::remove_all/remove_inode and Root::remove_all: '.'/'..'/'/'-containing names refused before any mutation, recursion only through O_NOFOLLOW|O_DIRECTORY opens of readdir names, only ENOENT swallowed and ENOENT never reported (a concurrent caller finished the removal).",
             "A1, A8; partial correctness only (no termination measure against an adversary)"),
     "C14": ("Contract proof of resolve_parent/create/create_file/remove_inode/rename: exactly the *at call on (lineage parent, split-off final name); trailing slash gives InvalidArgument; path_split's decomposition postcondition proved for all byte strings.",
             "kernel semantics of the *at call itself"),
-    "C15": ("may_follow_link proved equal to the kernel rule (fs/namei.c) restated as a spec function, for all uid/mode/sysctl values.",
+    "C15": ("may_follow_link proved equal to the kernel rule (fs/namei.c) restated as a spec function, for all uid/mode/sysctl values; do_resolve applies it exactly to the trailing symlink of the walk (kernel: WALK_TRAILING only); the geteuid wrapper is proved to return the effective uid.",
             "geteuid vs fsuid approximation; sysctl value cached"),
-    "C16": ("Contracts on store_error/pathrs_errorinfo/CError::from over a HashMap view under the single Mutex: id <= -4096, fresh, exact attribution, consume-once; errno table of ErrorKind.",
+    "C16": ("Contracts on store_error/pathrs_errorinfo/CError::from over a HashMap view under the single Mutex: id <= -4096, fresh, exact attribution, consume-once; every ERROR_MAP.lock() is a critical section and the map is arbitrary between two sections (interference by other threads); errno table of ErrorKind.",
             "A7 (Mutex, rand range); probabilistic termination of the id probe"),
     "C17": ("Contracts on the C boundary helpers and entry points: negative fds / NULL paths / unknown bases rejected before use, copy_path_into_buffer writes min(len, bufsize) bytes and returns len.",
             "the C caller's promise that buf has bufsize bytes"),
